@@ -52,6 +52,8 @@ def gen_cases(tier, seed):
         for m in ["none", "high_s", "flip_s", "flip_msg", "flag_byte", "pub_65_with_02", "swap_key", "infinity_via_pubkey", "pub_parity_flip"]:
             yield "sigverify", {"via": "cli", "d": hex(d), "k": hex(rng.randrange(1, N)), "msg": rand_bytes(rng, rng.choice([1, 32, 80])).hex(), "flag": [1, 0x83][i % 2],
                                 "pre": i % 2 == 1, "comp": i % 3 != 0, "mut": m, "bit": rng.randrange(0, 2048), "d2": hex(rng.randrange(1, N))}
+    for i in range(6 if tier == "quick" else 80):
+        yield "sigverify_keys", {"d": hex(rng.randrange(1, N)), "k": hex(rng.randrange(1, N)), "msg": rand_bytes(rng, 32).hex(), "flag": 1, "bit": rng.randrange(1 << 30)}
     # direct ecmath.verify with digests >= n and boundary values
     for i in range(60 if tier == "quick" else 800):
         d = rng.randrange(1, N)
@@ -81,7 +83,7 @@ def gen_cases(tier, seed):
 
 def required(tier):
     return {"sigverify.decided": 1500, "sigverify.expected_accept": 150, "sigverify.expected_reject": 1000,
-            "mut.infinity": 20, "sigverify.via_cli": 80, "mut.high_s": 50, "mut.pub_65_with_02": 50, "ecverify.decided": 50,
+            "mut.infinity": 20, "keys.class.offcurve_pseudo_root": 10, "keys.class.coord_plus_p": 100, "keys.class.valid": 10, "sigverify.via_cli": 80, "mut.high_s": 50, "mut.pub_65_with_02": 50, "ecverify.decided": 50,
             "lows.decided": 60, "lows.class.short_complement": 20, "small.decided": 100000,
             "small.expected_accept": 100, "small.class.x_ge_n": 10, "small.class.R_infinity": 100}
 
@@ -255,6 +257,37 @@ def run_case(kind, params, ctx):
             ctx.violation(f"accepts-invalid/{mut}/{_pubclass(pub)}", f"sig_verify -> OK but equation/key invalid: sig={sig.hex()} pub={pub.hex()} msg={vmsg.hex()[:80]} pre={pre}")
         if (not lib_ok) and expected:
             ctx.violation(f"rejects-valid/{mut}/{'pre' if pre else 'plain'}", f"sig_verify -> {out!r} for a tuple satisfying the equation: sig={sig.hex()} pub={pub.hex()} msg={vmsg.hex()[:80]} pre={pre}")
+        return
+    if kind == "sigverify_keys":
+        # one genuine signature, every public-key buffer of the shared candidate list (common.sec1_candidates):
+        # a malformed buffer must never verify; a valid one verifies iff the equation holds for the point it encodes
+        from .common import sec1_candidates
+        d, k = int(params["d"], 16), int(params["k"], 16)
+        msg = bytes.fromhex(params["msg"])
+        flag = params["flag"]
+        pt = secp.pub(d)
+        zz = int.from_bytes(h256(msg + flag.to_bytes(4, "little")), "big")
+        r, s = recdsa.sign_with_k(d, zz % N, k)
+        s = min(s, N - s)
+        sig = rder.encode(r, s) + bytes([flag])
+        for cls, pub in sec1_candidates(rng_for("C02k", params["bit"]), pt=pt, n_random=8):
+            ref_pub = secp.sec1_decode(pub)
+            expected = ref_pub is not None and recdsa.verify(ref_pub, zz, r, s)
+            try:
+                out = bu.sig_verify(sig, pub, msg)
+                lib_ok = out == "OK"
+            except ContractViolation:
+                raise
+            except Exception as e:
+                out, lib_ok = f"{type(e).__name__}: {e}", False
+            ctx.count("keys.decided")
+            ctx.count(f"keys.class.{cls}")
+            ctx.seen("keys", (sig, pub))
+            if lib_ok and not expected:
+                ctx.violation(f"accepts-invalid/key-candidate/{cls}", f"sig_verify -> OK with pub={pub.hex()} ({cls}) sig={sig.hex()} msg={msg.hex()[:80]}")
+            if expected and not lib_ok:
+                ctx.violation(f"rejects-valid/key-candidate/{cls}", f"sig_verify -> {out!r} with pub={pub.hex()} sig={sig.hex()} msg={msg.hex()[:80]}")
+        ctx.nontrivial()
         return
     if kind == "ecverify":
         _ecverify(ctx, int(params["d"], 16), int(params["k"], 16), int(params["z"], 16), params["mut"], params["bit"], None)
